@@ -105,6 +105,33 @@ def install(emit):
 
     Config.load = classmethod(load)
 
+    # Config.tla LoadEntries: the public constructor and model_validate called directly (not from inside load) are load
+    # steps without a file whose keyword layer is the data handed over
+    def direct(orig, data_of):
+        @functools.wraps(orig)
+        def wrapper(*a, **kw):
+            global _depth
+            if _depth > 0:
+                return orig(*a, **kw)
+            kl = layer_of(data_of(a, kw))
+            ok, err = False, None
+            _depth += 1
+            try:
+                r = orig(*a, **kw)
+                ok = True
+                return r
+            except BaseException as e:
+                err = type(e).__name__
+                raise
+            finally:
+                _depth -= 1
+                emit('config', _ev('load', ok, f=layer_of({}), k=kl, err=err))
+
+        return wrapper
+
+    Config.__init__ = direct(Config.__init__, lambda a, kw: kw)
+    Config.model_validate = classmethod(direct(Config.model_validate.__func__, lambda a, kw: a[1] if len(a) > 1 else kw.get('obj', {})))
+
     orig_reset = Config.reset
 
     def reset():
